@@ -59,10 +59,18 @@ pub fn c_patterns(lead: &[usize], rows: usize, cols: usize) -> Vec<Option<Vec<us
         let mut ones = vec![1; lead.len()];
         ones.extend([1, cols]);
         v.push(Some(ones));
+        // one row vector per matrix of the batch
+        let mut per_matrix_row = lead.to_vec();
+        per_matrix_row.extend([1, cols]);
+        v.push(Some(per_matrix_row));
         if lead.len() == 2 {
             v.push(Some(vec![lead[1], rows, cols]));
+            v.push(Some(vec![lead[1], 1, cols]));
+            v.push(Some(vec![lead[0], 1, rows, cols]));
+            v.push(Some(vec![lead[0], 1, 1, cols]));
         }
     }
+    v.dedup();
     v
 }
 
@@ -169,6 +177,10 @@ pub fn conv_cfgs(max_image: usize, max_filter: usize, max_stride: usize, depths:
                                     for b in batches {
                                         let mut image = b.clone();
                                         image.extend([d, rows, cols]);
+                                        if n == 1 {
+                                            // a single filter given without the count dimension
+                                            out.push(ConvCfg { image: image.clone(), filters: vec![d, fr, fc], sr, sc });
+                                        }
                                         out.push(ConvCfg { image, filters: vec![n, d, fr, fc], sr, sc });
                                     }
                                 }
@@ -194,7 +206,15 @@ impl ConvCfg {
     }
     pub fn out_windows(&self) -> usize {
         let n = self.image.len();
-        ((self.image[n - 2] - self.filters[2]) / self.sr + 1) * ((self.image[n - 1] - self.filters[3]) / self.sc + 1)
+        let f = self.filters.len();
+        ((self.image[n - 2] - self.filters[f - 2]) / self.sr + 1) * ((self.image[n - 1] - self.filters[f - 1]) / self.sc + 1)
+    }
+    pub fn filter_count(&self) -> usize {
+        if self.filters.len() == 4 {
+            self.filters[0]
+        } else {
+            1
+        }
     }
 }
 
